@@ -100,7 +100,27 @@ func (x *Exec) lockCheck(st *State, l *Loc, mode string) {
 
 func (x *Exec) mapLockCheck(st *State, m Val, mode string) {
 	// maps reachable from guarded fields: the map value was loaded from a
-	// guarded field (checked at that load); nothing further here.
+	// guarded field (checked at that load). A map handed to a helper as a
+	// parameter declared `guarded-param` keeps its guard: the helper and the
+	// closures it creates may only touch it with that mutex held.
+	if x.fn == nil || !strings.HasPrefix(m.Org, "param:") {
+		return
+	}
+	ctr := x.contractFor(rootFn(x.fn))
+	if ctr == nil {
+		return
+	}
+	mu, ok := ctr.GuardedParams[strings.TrimPrefix(m.Org, "param:")]
+	if !ok {
+		return
+	}
+	held := false
+	for _, h := range st.held {
+		if h == "?#"+mu || strings.HasSuffix(h, "#"+mu) {
+			held = true
+		}
+	}
+	x.oblige(st, "LOCK", fmt.Sprintf("guarded-param(%s by %s %s at %s)", strings.TrimPrefix(m.Org, "param:"), mu, mode, x.posText(x.curPos)), BoolLit(held), "access to a guarded map without its mutex")
 }
 
 func (x *Exec) immutCheck(st *State, l *Loc) {
